@@ -68,6 +68,17 @@ def modifyHead (f : List TryE → List TryE) : List (List TryE) → List (List T
   | [] => []
   | t :: ts => f t :: ts
 
+def Op.isNop : Op → Bool
+  | .nop => true
+  | _ => false
+
+/-- TRY / ENDTRY are plain instructions for the accounting machine (`.nop`); any other pairing of the
+try-kind with an instruction does not correspond to an opcode and is a FAULT of the model -/
+def topBad (op : Op) (top : TOp) : Bool :=
+  match top with
+  | .other => false
+  | _ => !op.isNop
+
 /-- FAULTs of TRY / ENDTRY / ENDFINALLY themselves -/
 def tryBad (t : TSt) (op : Op) (top : TOp) : Bool :=
   let cur := t.tries.headD []
@@ -93,7 +104,7 @@ def triesAfter (tr : List (List TryE)) (op : Op) (top : TOp) : List (List TryE) 
 /-- one instruction: FAULTs of the try machinery, the handler search if the instruction raises, the
 instruction itself with gas (`gasStep`), the update of the try stacks -/
 def tstep (t : TSt) (b : Nat) (op : Op) (top : TOp) (burn : Nat) (ext : Bool) : Option (TSt × Option (Nat × Bool)) :=
-  if tryBad t op top then none else
+  if topBad op top || tryBad t op top then none else
   if raises t.g.s op then
     match findHandler t.tries 0 with
     | none => none                                                                    -- unhandled exception
